@@ -180,10 +180,10 @@ example : fromString [48,46,49,101,45,53] = .ok 1 := by decide
 example : fromString [57,50,50,51,51,55,50,48,51,54,56,53,52,46,55,55,53,56,48,55] = .ok 9223372036854775807 := by decide
 example : fromString [57,50,50,51,51,55,50,48,51,54,56,53,52,46,55,55,53,56,48,56] = .err (.named "ErrTooLarge") := by decide
 example : toText 123000456 = .ok [49,50,51,46,48,48,48,52,53,54] := by decide
--- F19 (repaired): the library itself parses ".+5" as 5·10^-2; `FromString` now rejects it
+-- F24 (repaired): the library itself parses ".+5" as 5·10^-2; `FromString` now rejects it
 example : newFromString [46,43,53] = some ⟨5, -2⟩ := by decide
 example : fromString [46,43,53] = .err (.other "syntax") := by decide
--- F20 (known finding): unusual spellings of representable amounts are rejected —
+-- F23 (known finding): unusual spellings of representable amounts are rejected —
 -- "10e-7" (= 0.000001), "0e-7" (= 0), ".0" (= 0)
 example : fromString [49,48,101,45,55] = .err (.named "ErrTooManyDecimals") ∧
     (parseLit [49,48,101,45,55]).bind Lit.specValue = some (.ok 1) := by decide
